@@ -222,6 +222,13 @@ class Hist:
             wt = self.wt if rng.random() < 0.75 else rng.choice(other_wt)
             net = self.net
             change = rng.choice([0, 0, 1])
+            if step == self.nops - 2 and len(accounts) > 1:
+                # once per history: the change-chain wrapper asked for an account that is not the default one
+                r, change, wt = 0.31, 1, self.wt
+                acct = rng.choice([a_ for a_ in accounts if a_ != self.defacct])
+                force_wrapper = True
+            else:
+                force_wrapper = False
             kw = {}
             if accounts_net and rng.random() < 0.45:
                 # a key of another network of this wallet (own witness type only: its account was created for that)
@@ -247,12 +254,22 @@ class Hist:
                     k = w.new_key_change(**kw)
                     self.record('new.%s.1' % self.chain(wt, net, acct, 1), [k], 'new_key_change(%s)' % kw)
                 elif r < 0.45:
-                    k = w.get_key(change=change, **kw)
-                    self.record('get.%s.1' % c, [k], 'get_key(change=%d, %s)' % (change, kw))
+                    if change == 1 and (force_wrapper or rng.random() < 0.6):
+                        self.ctx.count('get_key_change-wrapper')
+                        k = w.get_key_change(**kw)            # the change-chain wrapper takes the same account / network / witness type
+                        self.record('get.%s.1' % c, [k], 'get_key_change(%s)' % kw)
+                    else:
+                        k = w.get_key(change=change, **kw)
+                        self.record('get.%s.1' % c, [k], 'get_key(change=%d, %s)' % (change, kw))
                 elif r < 0.6:
                     n = rng.choice([2, 3, 5])
-                    ks = w.get_keys(number_of_keys=n, change=change, **kw)
-                    self.record('get.%s.%d' % (c, n), ks, 'get_keys(%d, change=%d, %s)' % (n, change, kw))
+                    if change == 1 and rng.random() < 0.6:
+                        self.ctx.count('get_keys_change-wrapper')
+                        ks = w.get_keys_change(number_of_keys=n, **kw)
+                        self.record('get.%s.%d' % (c, n), ks, 'get_keys_change(%d, %s)' % (n, kw))
+                    else:
+                        ks = w.get_keys(number_of_keys=n, change=change, **kw)
+                        self.record('get.%s.%d' % (c, n), ks, 'get_keys(%d, change=%d, %s)' % (n, change, kw))
                 elif r < 0.7:
                     n = rng.choice([2, 4])
                     ks = w.new_keys(number_of_keys=n, change=change, **kw)
